@@ -253,3 +253,52 @@ def nothrow_calls(rep, prog, roots, rule, what):
                                      'same object: the clean-up can throw half-way' %
                                      (name, '' if throws_when_getter else '!', getter.split('::')[-1], node.line, getter.split('::')[-1])])
     return n
+
+
+def equality_complete(rep, prog, rule):
+    """EQUALITY.complete: a member comparison of a record with another object of its own type covers every data member.
+
+    For every class that defines `operator==` (or `operator!=`) taking a const reference to its own type: the data members compared
+    with the same member of the other object (`f == o.f`, `f != o.f`), in the operator itself and in the same-class functions it
+    hands the other object to, must be all the data members of the class.  A member left out makes two different objects compare
+    equal - and whatever is skipped "because nothing changed" keeps running on the old value."""
+    rep.rule(rule, 'an equality operator of a class compares every data member of the class with the same member of the other object '
+             '(directly or through the same-class helpers it passes the other object to)')
+    n = 0
+    for qn, rec in sorted(prog.records.items()):
+        ops = [f for (q, _), f in prog.functions.items() if f.get('cls') == qn and f['name'] in ('operator==', 'operator!=')
+               and f.get('body') and len(f['params']) == 1 and qn.split('::')[-1] in f['params'][0].get('ty', '')]
+        if not ops:
+            continue
+        fields = [f['name'] for f in rec.get('fields', [])]
+        seen, todo, compared = set(), list(ops), set()
+        while todo:
+            fn = todo.pop()
+            if id(fn) in seen:
+                continue
+            seen.add(id(fn))
+            other = fn['params'][0]['name'] if fn['params'] else None
+            for x in astu.walk(fn['body']):
+                if x['k'] in ('Bin',) and x.get('op') in ('==', '!=') or (x['k'] == 'OpCall' and x.get('op') in ('==', '!=')):
+                    a, b = (x['a'], x['b']) if x['k'] == 'Bin' else (x['args'][0], x['args'][1]) if len(x.get('args', [])) == 2 else (None, None)
+                    if a is None:
+                        continue
+                    a, b = astu.strip_casts(a), astu.strip_casts(b)
+                    for u, v in ((a, b), (b, a)):
+                        if u['k'] == 'Member' and v['k'] == 'Member' and u['name'] == v['name'] and \
+                                astu.strip_casts(v.get('base', {})).get('name') == other and \
+                                astu.strip_casts(u.get('base', {})).get('k') in ('This', None):
+                            compared.add(u['name'])
+                if x['k'] in ('MCall', 'Call', 'OpCall') and x.get('callee', {}).get('cls') == qn:
+                    if any(astu.strip_casts(a_).get('name') == other for a_ in x.get('args', [])) or \
+                            (x['k'] == 'OpCall' and x.get('op') in ('==', '!=')):
+                        for g in prog.fns(x['callee']['qn']):
+                            if g.get('body') and g['params']:
+                                todo.append(g)
+        if not compared:
+            continue
+        n += 1
+        missing = [f for f in fields if f not in compared]
+        rep.add(rule, qn.split('::')[-1], where(ops[0]), '%s: operator== compares all %d data members' % (qn.split('::')[-1], len(fields)),
+                not missing, None if not missing else ['not compared: %s - two objects that differ only there compare equal' % ', '.join(missing)])
+    return n
